@@ -306,3 +306,41 @@ func RenderResponse(s ResponseSpec) string {
 func RenderLogout(s LogoutSpec) string {
 	return Encode(Bytes(BuildLogout(s), s.Layout), s.Layout.Deflate)
 }
+
+// InjectComments places XML comments inside signed content of an assertion (before signing):
+// mode 1 inside the NameID text, 2 inside the first AttributeValue text, 3 between child
+// elements, 4 all of these.
+func InjectComments(as *etree.Element, mode int) {
+	split := func(el *etree.Element) {
+		if el == nil {
+			return
+		}
+		txt := el.Text()
+		for len(el.Child) > 0 {
+			el.RemoveChildAt(0)
+		}
+		h := len(txt) / 2
+		for h > 0 && h < len(txt) && txt[h]&0xC0 == 0x80 {
+			h-- // do not split inside a UTF-8 sequence
+		}
+		if h > 0 {
+			el.AddChild(etree.NewText(txt[:h]))
+		}
+		el.AddChild(etree.NewComment(" a comment "))
+		if h < len(txt) {
+			el.AddChild(etree.NewText(txt[h:]))
+		}
+	}
+	if mode == 1 || mode == 4 {
+		split(as.FindElement("./Subject/NameID"))
+	}
+	if mode == 2 || mode == 4 {
+		split(as.FindElement("./AttributeStatement/Attribute/AttributeValue"))
+	}
+	if mode == 3 || mode == 4 {
+		as.InsertChildAt(1, etree.NewComment(" between elements "))
+		if s := as.FindElement("./Subject"); s != nil {
+			s.InsertChildAt(0, etree.NewComment(" first in Subject "))
+		}
+	}
+}
